@@ -193,11 +193,13 @@ class LazyValue:
         return str(self.value)
 
     def __hash__(self):
-        return hash((self.value, self.lexeme))
+        return hash((type(self.value), self.value, self.lexeme))
 
     def __eq__(self, other):
+        # The type is compared too because 1, 1.0 and True are equal in Python
         return (
             isinstance(other, type(self))
+            and type(self.value) is type(other.value)
             and self.value == other.value
             and self.lexeme == other.lexeme
         )
